@@ -165,7 +165,9 @@ func c20Actions(args []string) error {
 					au, _ := am["uuid"].(string)
 					aj = test.JSONReplace(j.assets, []string{"flows", fmt.Sprintf("[%d]", flowIndex), "nodes", "[0]", "actions"}, []byte("["+string(mustJSON(am))+"]"))
 					aj = test.JSONReplace(aj, []string{"flows", fmt.Sprintf("[%d]", flowIndex), "localization"},
-						mustJSON(M{"spa": M{au: M{"quick_replies": []string{"Si @globals.only_in_translation", "@fields.only_in_translation"}}}}))
+						mustJSON(M{"spa": M{au: M{"quick_replies": []string{"Si @globals.only_in_translation", "@fields.only_in_translation",
+							// keys that are also names of functions / of top levels of the context
+							"@fields.title @globals.code", "@(fields.min & globals.text & fields.date)", "@fields.contact @globals.fields"}}}}))
 				}
 			}
 			sa, err := test.CreateSessionAssets(aj, "")
